@@ -7,6 +7,5 @@ CONSTANTS
   DefectLateClose = FALSE
   DefectIgnoreDeadline = FALSE
   DefectDoubleNil = FALSE
-INVARIANTS TypeOK ShutdownWaits DeadlineBounds NothingAfterStop MisuseErrors NoAcceptAfterBegin
-PROPERTIES NoHandlerStartAfterNil AcceptOnlyWhileStarted
+INVARIANTS ShutdownWaits
 CHECK_DEADLOCK FALSE
